@@ -1188,6 +1188,8 @@ class Ctx:
         self._all = []              # every constraint so far (for the lazy full solver)
         self.site = ""
         self.fold_depth = 0
+        self.fold_forked = None
+        self.split_roots = {}
 
     def _full(self):
         if self.solver is None:
@@ -1232,8 +1234,9 @@ class Ctx:
             if t and f:
                 if getattr(self, "fold_depth", 0) > 0:
                     # inside the body run for the *arbitrary* member of a team of symbolic size (teams.py):
-                    # other members may take the other side, which the map/fold rule does not cover
-                    raise UncutLoop(f"value-dependent branch inside a loop over a team of symbolic size: {str(e)[:100]}")
+                    # other members may take the other side.  Recorded; the fold decides whether the loop is
+                    # still inside the rule (member-wise effects only, no sum over the members afterwards)
+                    self.fold_forked = str(e)[:100]
                 if not self.exploring:
                     # nobody would ever run the other side: refuse rather than cover half
                     raise EngineError(f"fork outside an exploration on {str(e)[:120]}")
